@@ -192,6 +192,7 @@ def cstreamVerdict (d mode md : String) (out : List String) : String :=
       | .deadlineExceeded t => ["code4", s!"q={t}", "sdl=-"]
       | .never => ["never"]
     if out.contains "panic" then s!"VIOL stream-panics model={" ".intercalate modelOut}"
+    else if out = ["hang"] then s!"VIOL hang stream-attempt-never-returns model={" ".intercalate modelOut}"
     else if out = modelOut then s!"OK nt b=stream-{mode}"
     else "DIFF model=" ++ ",".intercalate modelOut
   | _, _ => "BAD c16 cstream"
@@ -257,6 +258,23 @@ def handle : Handler
         s!"VIOL close-while-stream-waits-on-not-ready-connection:{",".intercalate bad} model={" ".intercalate expect}"
     else if kind = "cstream" then cstreamVerdict _d mode _n out
     else "BAD c16 line"
+  | ["shareconn", mode, _poll], out =>
+    -- two names (model names 0, 1) whose underlying client is already closed at removal time: the lifecycle is the model's
+    match runR true init [.add 0 .ok, .add 1 .ok, .get 0, .get 1, .remove 0, .stream 0, .remove 1, .stream 1, .get 0, .get 1] with
+    | (_, [a0, a1, g0, g1, r0, s0, r1, s1, h0, h1]) =>
+      let addTok : Res → String | .add .ok _ => "ok" | _ => "?"
+      let getTok : Res → String | .get .absent => "absent" | .get (.usable _) => "usable" | _ => "?"
+      let rmTok : Res → String | .removed => "t" | .notPresent => "f" | _ => "?"
+      let stTok : Res → String | .unavailable => "unavail" | .streamOk => "ok" | _ => "?"
+      let closes := Conn.streamAfterClose (Conn.closeRun .unconditional true Conn.PState.live) = .unavailable
+      let modelOut := [s!"addA={addTok a0}", s!"addB={addTok a1}", s!"getA={getTok g0}", s!"getB={getTok g1}",
+        s!"rmA={rmTok r0}", s!"sA={stTok s0}", s!"rmB={rmTok r1}", s!"sB={if closes then stTok s1 else "?"}",
+        s!"getA2={getTok h0}", s!"getB2={getTok h1}", "leak=0"]
+      if out = modelOut then s!"OK nt b=underlying-client-already-closed-{mode}"
+      else
+        let bad := out.filter (fun t => !modelOut.contains t)
+        s!"VIOL stream-after-remove-not-unavailable:{",".intercalate bad} model={" ".intercalate modelOut}"
+    | _ => "BAD c16 shareconn model"
   | ["cidle", mode, _d], out =>
     -- the channel fell back to IDLE between two calls (C16_wait_connects_whenever_idle): the second call is established
     -- at once, with or without a deadline
